@@ -46,7 +46,24 @@ The obligations are stated on effects and path classes, not on the recursive spe
     is located at the call that runs the re-encoder, calls that are handed the table are judged with the row of the
     decision variant, switches on the table are decision switches (H.recreate_decisions);
   * `p = base.to_path_buf(); p.push(name)` is `base.join(name)` — only when the appended-to local is a PathBuf
-    (OsString::push / String::push_str add no separator) (H.path_pushes_as_join).
+    (OsString::push / String::push_str add no separator) (H.path_pushes_as_join for the SBOM constructor; H.pathbuf_joins
+    seeds the slicer with the join chain for every PathBuf local that is defined once and then only pushed onto, each
+    push running exactly once before every read — a push that accumulates round a loop keeps its concat reading);
+  * "an entry of directory D" is a *value class*, not the spelling `entry.path()`: `D.join(entry.file_name())` with
+    `entry` listed from the same D is `entry.path()` by std's definition (H.entry_paths_nf; byte-preserving
+    OsString/OsStr/Path conversions of the name are transparent, lossy ones and joins to any other directory are not);
+    "listed from D" looks through `?`, Some/Ok, `Option<Result>::transpose`, by_ref/peekable/fuse and private helpers
+    that open or advance the listing (H.listing_dirs); the no-follow type test of an entry discharges R1 / R1b for
+    every spelling of that entry's path, also behind a private path-building helper;
+  * for a work list of (directory, its listing) pairs "the listing component lists the path component" is part of the
+    proved invariant (Worklist.validate), so the same reading holds for `current.join(entry.file_name())` on the element
+    on top of the stack; a hand-over to a function that only passes the path on (`remove_entry(&path, file_type)`) is
+    guarded when every way from there to a real CHMOD / LIST function runs under the entry's no-follow test (guards_of
+    at every level of the chain, in the remover's terms);
+  * R1b unlink-guard is a cut condition, not "the else branch": every way to the remove_file — from the function's
+    entry and from the call itself round the loop — crosses an edge that says "not a real directory" about this entry
+    (is_dir() == false, is_symlink() == true, is_file() == true), so `is_symlink() || !is_dir()` and
+    `match (is_dir(), is_symlink())` are the same guard as `if is_dir() {..} else {..}`.
 """
 from .lib.effects import Effects, MUTATING, guards_of, vocab_lookup
 from .lib.guards import conditions, conditions_ctx
@@ -60,11 +77,31 @@ NOFOLLOW_TRUE = {'std::fs::FileType::is_dir': True, 'std::fs::Metadata::is_dir':
                  'std::path::Path::is_symlink': False}
 NOFOLLOW_NOT_DIR = {'std::fs::FileType::is_dir': False, 'std::fs::Metadata::is_dir': False,
                     'std::fs::FileType::is_symlink': True, 'std::fs::Metadata::is_symlink': True,
-                    'std::path::Path::is_symlink': True}
+                    'std::path::Path::is_symlink': True,
+                    # the kinds of a FileType are mutually exclusive: a regular file is not a directory
+                    'std::fs::FileType::is_file': True, 'std::fs::Metadata::is_file': True}
+
+
+_SL = [None]     # slicer of the current run: path values are compared in their normal form (H.entry_paths_nf)
 
 
 def _nofollow_root(v, path_value):
     """does boolean test value `v` rest on a no-follow stat of `path_value` (or of the dir entry it came from)"""
+    r = _nofollow_root_1(v, path_value)
+    if r is None and _SL[0] is not None:
+        # the path in its normal form: private path-building helpers opened, `dir.join(entry.file_name())` with entry
+        # listed from dir read as `entry.path()`
+        sl = _SL[0]
+        pv, tv = H.simplify(sl, path_value), H.simplify(sl, v)      # reads of a validated work list: the representative
+        for cand in (H.entry_paths_nf(sl, pv), H.entry_paths_nf(sl, sl.inline_deep(pv))):
+            if cand != path_value:
+                r = _nofollow_root_1(tv, cand)
+                if r:
+                    break
+    return r
+
+
+def _nofollow_root_1(v, path_value):
     for x in walk(v):
         if x[0] != 'call':
             continue
@@ -134,6 +171,15 @@ def unlink_guarded(prog, sl, E, e):
     for cd, views, _subj in guards_of(E, e):
         if cd.kind == 'bool' and any(says_not_dir(v, oc, e.path) for v, oc in views):
             return True
+    # a compound test (`is_symlink() || !is_dir()`, `is_file() || is_symlink()`) reaches the unlink over several edges,
+    # none of which dominates it: every way to the call — from the function's entry, and from the call itself round a
+    # loop to the next entry — must cross an edge that says "not a real directory" about this entry
+    f, bb = e.call.fn, e.call.bb
+    m = e.mapping or {}
+    cut = {(cd.sw_bb, cd.target) for cd in H.bool_edges(f, sl)
+           if any(says_not_dir(v, oc, e.path, local) or says_not_dir(E.subst(v, m), oc, e.path) for v, oc in cd.views())}
+    if cut and bb in f.reachable(0):
+        return not H.reaches_avoiding(f, [0], bb, cut) and not H.reaches_avoiding(f, list(f.succs(bb)), bb, cut)
     return False
 
 
@@ -141,6 +187,8 @@ def run(ctx, rep):
     # lists that are built and then only read ("plan, then execute") are read as the equivalent iterator expression
     from .lib import paths as _paths
     seeds = H.built_lists(ctx.prog, ctx.slicer)
+    # `p = base.to_path_buf(); p.push(a)` is `base.join(a)` for every obligation on path classes
+    seeds.update(H.pathbuf_joins(ctx.prog, H.seeded_slicer(ctx.prog, seeds, base=ctx.slicer)))
     sl0 = H.seeded_slicer(ctx.prog, seeds, base=ctx.slicer)
     saved = _paths.SLICER
     if seeds and saved is not None:
@@ -172,6 +220,7 @@ def _run(prog, sl0, seeds, rep):
     # whose invariant "every element is inside the tree of the argument" is proved get a representative element (sl);
     # MUST facts are derived on the plain values (EM: drained lists, alternatives that agree)
     wls, sl = H.abstract_worklists(prog, sl0, lib, seeds)
+    _SL[0] = sl
     E = H.EffectsC(prog, sl)
     EM = H.EffectsX(prog, sl0, wls) if wls else E
     callers = prog.callers()
@@ -222,6 +271,9 @@ def _run(prog, sl0, seeds, rep):
     F = H.followers(prog, sl, [f for f in lib if f.path != dl.path and not f.path.startswith(dl.path + '::{closure')])
     F.setdefault(rm.path, 0)
     ED = Effects(prog, sl, vocab={p: ('DESCEND', j) for p, j in F.items()})
+    F0 = H.direct_followers(prog, sl, [prog.fns[p] for p in F if p in prog.fns])
+    F0.setdefault(rm.path, 0)
+    ED0 = Effects(prog, sl, vocab={p: ('DESCEND', j) for p, j in F0.items()})
     for gp, j in sorted(F.items()):
         g = prog.fns[gp]
         rep.analysed(g)
@@ -238,6 +290,15 @@ def _run(prog, sl0, seeds, rep):
             if ok and k[0] == 'CHILD':
                 av = sl.operand(e.call.fn, e.call.args[F[e.call.name]]) if e.call.name in F and F[e.call.name] < len(e.call.args) else e.path
                 w = established(e.call.fn, e.call.bb, av, sl) or established_eff(ED, e, e.path)
+                if not w and e.call.name in F and e.call.name not in F0:
+                    # handed to a function that only passes the path on (`remove_entry(&entry.path(), entry.file_type()?)`):
+                    # the obligation is met when every way from this hand-over to a function that really chmods / lists
+                    # what it is given runs under the entry's no-follow test (guards at every level, in g's terms)
+                    deep = [d for d in ED0.expand(g, 'may') if d.kind == 'DESCEND'
+                            and any(getattr(l, 'call', l) is e.call for l in d.chain)]
+                    ws = [established_eff(ED0, d, d.path) for d in deep]
+                    if ws and all(ws):
+                        w = 'inside %s: %s' % (e.call.name.split('::')[-1], ws[0])
                 rep.check(bool(w), 'R1b', 'remover/recursion-guard', e.where(), 'recursion guarded by ' + str(w),
                           'recursion into a child is not guarded by the entry\'s own no-follow is_dir(): a symlinked directory would be followed')
         for e in E.expand(g, 'may'):
